@@ -56,4 +56,59 @@ wwShHiCarry(a, shift, carry, W) ==
 \* clear the bits 0..min(pos, nW)-1 / the bits pos..nW-1
 wwTrimLo(a, pos) == LET x == From16(a) IN To16(Shl(Shr(x, pos), pos), Len(a))
 wwTrimHi(a, pos) == To16(ModPow2(From16(a), pos), Len(a))
+\* ---- wwNAF(naf, a, n, w): window NAF of [n]a, 2 <= w < B_PER_W.  ww.h: NAF(a, w) is the sequence (a_0, ..., a_{l-1}) with
+\*   (1) a_i in {0, +-1, +-3, ..., +-(2^(w-1) - 1)};   (2) a # 0 => a_{l-1} # 0;   (3) a = sum a_i 2^i;
+\*   (4) among any w consecutive symbols at most one is non-zero;   l <= wwBitSize(a) + 1;
+\*   (5) a suffix  alpha, 0 (w-1 times), 1  with alpha < 0 is REPLACED by  beta, 0 (w-2 times), 1,  beta = 2^(w-1) + alpha > 0
+\*       (the only place where (4) is given up; the result is one symbol shorter).
+\* The width-w NAF of a number is unique, so (1)-(4) of the sequence with the replacement undone, together with "the
+\* replacement was made whenever it applies", determine the result completely.
+\* Encoding (ww.h): zero symbol = one binary symbol 0; a non-zero symbol = w binary symbols <sign><|a_i|>; the code of a_{l-1}
+\* comes first (lowest bit numbers of [2n+1]naf), the code of a_0 last.  A w-symbol code must be told from the one-symbol code
+\* of zero by its first symbol: read as a w-bit number the code is  sign * 2^(w-1) + |a_i|  (|a_i| is odd: its first bit is 1).
+\* A symbol is <<sign, magnitude>>, sign in {-1, 0, 1}, magnitude a BigNat value (w may be as large as 63).
+NafBitAt(bs, k) == IF k >= 1 /\ k <= Len(bs) THEN bs[k] ELSE 0
+BitsNat(bs) == From16(LimbsOf(bs \o Zeros((16 - (Len(bs) % 16)) % 16)))
+\* <<symbols in the order of decoding (a_{l-1} first), number of binary symbols consumed>>
+NafDecode(bs, l, w) ==
+  FoldLeft(LAMBDA st, i :
+             IF NafBitAt(bs, st[2] + 1) = 0 THEN <<Append(st[1], <<0, Zero>>), st[2] + 1>>
+             ELSE <<Append(st[1], <<IF NafBitAt(bs, st[2] + w) = 1 THEN -1 ELSE 1,
+                                    Norm(BitsNat(Strict([j \in 1..(w - 1) |-> NafBitAt(bs, st[2] + j)])))>>),
+                    st[2] + w>>,
+           <<<<>>, 0>>, Rng(1, l))
+NafSum(D, sg) == FoldLeft(LAMBDA acc, i : IF D[i][1] = sg THEN Add(acc, Shl(D[i][2], i - 1)) ELSE acc, Zero, Rng(1, Len(D)))
+NafValueIs(D, a) == Eq(NafSum(D, 1), Add(NafSum(D, -1), a))
+NafDigitOk(d, w) == IF d[1] = 0 THEN IsZero(d[2]) ELSE IsOdd(d[2]) /\ BitLen(d[2]) <= w - 1
+\* (4): the distance between two non-zero symbols is at least w
+NafSparse(D, w) ==
+  FoldLeft(LAMBDA st, i : IF D[i][1] = 0 THEN st ELSE <<st[1] /\ (st[2] = 0 \/ i - st[2] >= w), i>>, <<TRUE, 0>>, Rng(1, Len(D)))[1]
+NafZerosBetween(D, lo, hi) == \A i \in lo..hi : D[i][1] = 0
+\* D = (a_0, ..., a_{l-1}) as D[1..l]
+NafSeqOk(D, a, w) ==
+  LET l == Len(D)
+      \* the top of D has the replaced form  beta > 0, 0 (w-2 times), 1
+      replaced == l >= w /\ D[l] = <<1, One>> /\ D[l - w + 1][1] = 1 /\ NafZerosBetween(D, l - w + 2, l - 1)
+      \* ... undone:  alpha = beta - 2^(w-1) < 0, 0 (w-1 times), 1
+      D0 == IF replaced
+            THEN [i \in 1..(l + 1) |-> IF i = l - w + 1 THEN <<-1, Norm(Sub2(PowerOf2(w - 1), D[i][2]))>>
+                                        ELSE IF i = l THEN <<0, Zero>> ELSE IF i = l + 1 THEN <<1, One>> ELSE D[i]]
+            ELSE D
+      \* the replacement applies to D but was not made
+      missed == l >= w + 1 /\ D[l] = <<1, One>> /\ D[l - w][1] = -1 /\ NafZerosBetween(D, l - w + 1, l - 1)
+  IN /\ \A i \in 1..l : NafDigitOk(D[i], w)
+     /\ \A i \in 1..Len(D0) : NafDigitOk(D0[i], w)
+     /\ NafValueIs(D, a)
+     /\ (IsZero(a) \/ (l >= 1 /\ D[l][1] # 0))
+     /\ NafSparse(D0, w)
+     /\ ~missed
+     /\ l <= BitLen(a) + 1
+\* naf = the 16-bit limbs of [2n+1]naf, l = the returned number of symbols; nothing but the code is stored in naf
+wwNAFOk(naf, l, a, w) ==
+  LET bs == BitsOf(naf)
+  IN /\ l >= 0 /\ l <= BitLen(From16(a)) + 1
+     /\ LET dec == NafDecode(bs, l, w)
+        IN /\ dec[2] <= Len(bs)
+           /\ \A k \in (dec[2] + 1)..Len(bs) : bs[k] = 0
+           /\ NafSeqOk(Reverse(dec[1]), From16(a), w)
 =============================================================================
